@@ -65,6 +65,7 @@ def run(R, ctx):
     order_rules(R, ctx)
     swap_rules(R, ctx)
     index_table(R, ctx)
+    index_state_rule(R, ctx)
     collision_rules(R, ctx)
     b, wbb = c08.find_sink(ctx)
     mounts = [bb for bb, t in b.calls() if callee_name(t) in f.bodies and
@@ -315,6 +316,39 @@ def order_rules(R, ctx):
             bad = f"fs::rename reachable through an undeclared step {extra[0][0]}"
         R.check('R01.3', f"{b.path}|rename-before-open", not bad and n > 0, f"{n} rows: every renaming step precedes the single open",
                 f"{label}: {bad}", where=b.loc(), sample={'fn': b.path, 'rows_with_open': n})
+
+
+def index_state_rule(R, ctx, rule='R01.5'):
+    """Naming::Numbers: index_for_rcurrent has renamed rCURRENT to r<idx> when it returns Ok(next index); the stored index must be
+    that value from then on, whatever happens next (a failing open of the new rCURRENT included): with a stale index the retry opens
+    a fresh rCURRENT and the following rotation renames it ONTO the existing r<idx> - records already written are overwritten"""
+    b = ctx.body(r'::State::mount_next_linewriter_if_necessary$')
+    rows = c09.mount_rows(ctx)
+    bad = None
+    n = n_fail = 0
+    for r in rows:
+        if r.undecided or r.get('variant(self.inner.0.0.naming_state)') != 'NumbersRCurrent':
+            continue
+        k = next((i + 1 for i, e in enumerate(r.effects) if e[0].endswith('index_for_rcurrent')), None)
+        if k is None or r.get(f"variant({r.effects[k - 1][0]}#{k})") != 'Ok':
+            continue
+        fin = r.final[0] if r.final else None
+        st = fin.fields[0] if isinstance(fin, Agg) and fin.adt == 'ref' else fin
+        try:
+            ns = st.fields[1].fields[0].fields[0].fields[0]
+            idx = ns.fields[0]
+        except Exception:
+            raise CheckError(f"{rule}: final naming state not readable on a rotation row")
+        n += 1
+        opened = next((v for a, v in r.cond if a.startswith('variant(') and 'open_log_file#' in a), None)
+        if opened != 'Ok':
+            n_fail += 1
+        if f"index_for_rcurrent#{k}" not in repr(idx):
+            bad = f"after index_for_rcurrent returned Ok (rCURRENT renamed) the stored index is {repr(idx)[:80]}" + (" on a path where the open of the new file fails" if opened != 'Ok' else '')
+    if not bad and (n < 2 or n_fail < 1):
+        raise CheckError(f"{rule}: rotation rows for Naming::Numbers not recognised ({n} rows, {n_fail} with a failing later step)")
+    R.check(rule, f"{b.path}|index-stored-once-renamed", not bad, f"{n} rows ({n_fail} with a later failure): stored index = result of index_for_rcurrent",
+            f"rotation with Naming::Numbers: {bad}: the next rotation renames the fresh rCURRENT onto an existing numbered file", where=b.loc())
 
 
 def swap_rules(R, ctx):
